@@ -146,7 +146,9 @@ class Models:
                 ds.append(d.as_long())
             ev(st, 'new_channel_web', tuple(ds))
             M.web_ids = ds
-            return Struct([Struct([Opaque('mailbox')]), Struct([PyVec([Enum(d, {}) for d in ds])])])
+            # a HashMap iterates in an arbitrary order: the caller asks for the orders it wants explored
+            order = sorted(ds, reverse=bool(getattr(M, 'reverse_keys', False)))
+            return Struct([Struct([Opaque('mailbox')]), Struct([PyVec([Enum(d, {}) for d in order])])])
 
         def h_get_mailbox(ex, st, callee, args, fn):
             cid = val(ex, st, args[1])
@@ -218,6 +220,9 @@ class Models:
                 raise EngineError('collect over %r' % (it,))
             out = []
             cur = st
+            tgt = callee.split('>::collect::<', 1)[1] if '>::collect::<' in callee else ''
+            into_result = bool(re.match(r'(std::result::)?Result<', tgt.strip()))
+            finished = []
             for i, x in enumerate(it.items[it.pos:]):
                 M.n += 1
                 cell = ('it', M.n)
@@ -246,10 +251,48 @@ class Models:
                         raise EngineError('iterator adaptor ' + which)
                 if keep:
                     out.append(item)
+                    if into_result:
+                        # FromIterator for Result: the first Err ends the iteration (later items are never produced)
+                        iv = val(ex, cur, item)
+                        if not isinstance(iv, Enum):
+                            raise EngineError('collect into a Result of items that are not Results')
+                        d = iv.disc()
+                        s_err = cur.fork(); s_err.pc.append(d == 1)
+                        finished.append((s_err, Enum(1, {'Err': iv.p.get('Err', Struct([Opaque('err')]))})))
+                        cur = cur.fork() if cur is st else cur
+                        cur.pc.append(d == 0)
+            if into_result:
+                finished.append((cur, Enum(0, {'Ok': Struct([PyVec(out)])})))
+                return finished
             if cur is not st:
                 st.mem = cur.mem; st.pc = cur.pc; st.trace = cur.trace
             return PyVec(out)
-        return [(r'Box::<\[ChannelId; \d+\]>::new_uninit$', h_new_uninit), (r'box_assume_init_into_vec_unsafe', h_into_vec),
+        def h_iter(ex, st, callee, args, fn):
+            v = val(ex, st, args[0])
+            if not isinstance(v, PyVec):
+                raise EngineError('iteration over %r' % (v,))
+            return PyVec(v.items, 0, v.stages) if callee.endswith('::iter') or callee.endswith('into_iter') else v
+
+        def h_any_all(ex, st, callee, args, fn):
+            which = callee.split('::<')[0].rsplit('::', 1)[1]
+            it = val(ex, st, args[0])
+            if not isinstance(it, PyVec) or it.stages:
+                raise EngineError('%s over %r' % (which, it))
+            acc = z3.BoolVal(which == 'all')
+            cur = st
+            for x in it.items[it.pos:]:
+                M.n += 1
+                cur.mem[('it', M.n)] = x
+                r = call_closure(ex, cur, callee, args[1], [Ref('it', M.n)])
+                if r is None:
+                    raise EngineError('closure of Iterator::%s not executable' % which)
+                cur, b = r
+                acc = z3.Or(acc, b) if which == 'any' else z3.And(acc, b)
+            if cur is not st:
+                st.mem = cur.mem; st.pc = cur.pc; st.trace = cur.trace
+            return acc
+        return [(r'<impl \[.*\]>::iter$|<Vec<.*> as Deref>::deref$|Vec::<.*>::iter$', h_iter), (r' as Iterator>::(any|all)::<', h_any_all),
+                (r'Box::<\[ChannelId; \d+\]>::new_uninit$', h_new_uninit), (r'box_assume_init_into_vec_unsafe', h_into_vec),
                 (r'(^|::)new_channel_web(::<.*>)?$', h_web), (r'MailBox(::<.*>)?::get_mailbox$', h_get_mailbox),
                 (r'^<DispatchBox<.*> as Clone>::clone$', h_clone), (r'(^|::)spawn::<', h_spawn),
                 (r'Vec::<JoinHandle<\(\)>>::new$', h_vec_new), (r'Vec::<JoinHandle<\(\)>>::push$', h_vec_push),
@@ -520,6 +563,8 @@ class Tables:
         side = list(ex.side)
         on = {}
         detail = {}
+        if not hasattr(self, 'main_alts'):
+            self.main_alts = {}
         for guard, kind, events in outs:
             rc = [e for e in events if e.kind == 'recv']
             if len(rc) != 1:
@@ -531,17 +576,24 @@ class Tables:
                     res = 'exit' if kind == 'return' else 'continue'
                     on.setdefault(key, set()).add(res)
                     if kind == 'return':
-                        tg = set()
+                        tg = set(); sends = []
                         for e in events:
                             if e.kind == 'send':
                                 d = z3.simplify(e.args[0].disc()); kk = z3.simplify(e.args[1].disc())
                                 if z3.is_int_value(kk) and kk.as_long() == self.ABORT and z3.is_int_value(d):
-                                    tg.add(d.as_long())
+                                    tg.add(d.as_long()); sends.append((d.as_long(), e.ret))
                         joins = len([e for e in events if e.kind == 'join'])
                         # the sends come before the joins
                         idx_s = [i for i, e in enumerate(events) if e.kind == 'send']; idx_j = [i for i, e in enumerate(events) if e.kind == 'join']
                         order_ok = not idx_s or not idx_j or max(idx_s) < min(idx_j)
                         detail.setdefault(key, []).append((frozenset(tg), joins, order_ok))
+                        # for the composition: which send results this path needs (a send succeeds iff the receiver still exists)
+                        need = {}
+                        feasible = True
+                        for dest, okv in sends:
+                            can_ok = self.sat(side, guard, c, okv); can_fail = self.sat(side, guard, c, z3.Not(okv))
+                            need[dest] = (can_ok, can_fail)
+                        self.main_alts.setdefault(key, []).append({'sends': [d_ for d_, _ in sends], 'need': need, 'joins': joins})
         return on, detail
 
 
@@ -641,8 +693,23 @@ def bmc(tabs, P, W, Pn, Wn, main_on, main_detail, chan, K, R, Q, seed, stats):
         s.add(z3.Implies(z3.And(m_loop, m_choice), m_exit_ok), z3.Implies(z3.And(m_loop, z3.Not(m_choice)), m_cont_ok))
         m_exits = z3.And(m_loop, m_choice)
         # broadcast targets / joins on exit, per popped kind (tables are concrete)
+        alt_pick = z3.Int('m_alt_%d' % t)
+        alts_all = []
+        for k in kinds:
+            for i, al in enumerate(tabs.main_alts.get(k, [])):
+                alts_all.append((k, al))
+        conds = []
+        for idx, (k, al) in enumerate(alts_all):
+            ok_ = [m_head == k]
+            for dest, (can_ok, can_fail) in al['need'].items():
+                alive = a['pAlive'] if dest == cP else (a['wAlive'] if dest == cW else z3.BoolVal(True))
+                ok_.append(z3.If(alive, z3.BoolVal(can_ok), z3.BoolVal(can_fail)))
+            conds.append(z3.And(alt_pick == idx, *ok_))
+        if alts_all:
+            s.add(z3.Implies(m_exits, z3.Or(conds)))
+
         def targets(dest):
-            return z3.Or([z3.And(m_head == k, z3.BoolVal(any(dest in tg for tg, j, o in main_detail.get(k, [])))) for k in kinds])
+            return z3.Or([z3.And(alt_pick == idx, z3.BoolVal(dest in al['sends'])) for idx, (k, al) in enumerate(alts_all)]) if alts_all else z3.BoolVal(False)
         m_join = z3.And(who == 0, a['m'] == 1, z3.Not(a['pAlive']), z3.Not(a['wAlive']))
         # ---------------- effects
         # qP: pop by the poller (when it looked at a non-empty mailbox), push Abort by main
@@ -699,6 +766,14 @@ def extract_all(M, stats):
     tabs = Tables(M, stats)
     main_outs = M.run_main()
     main_on, main_detail = tabs.main(main_outs, M.main_ex)
+    # the other iteration order of the channel map
+    M2 = Models(prog); M2.reverse_keys = True
+    outs_r = M2.run_main()
+    on_r, det_r = tabs.main(outs_r, M2.main_ex)
+    for k, v in on_r.items():
+        main_on.setdefault(k, set()).update(v)
+    for k, v in det_r.items():
+        main_detail.setdefault(k, []).extend(v)
     exP, fnP, SP = loop_summary(M, 'run_clock_error_bound_poller', [ctx_value(M, 'ClockErrorBoundPoller'), Opaque('poller'), Enum(z3.If(z3.Bool('phc_cfg'), z3.IntVal(1), z3.IntVal(0)), {'Some': Struct([Struct([z3.Int('cfg_refid'), Opaque('path')])]), 'None': UNIT}), Struct([z3.Int('sleep_ns')])])
     P = tabs.worker(exP, SP, 'poller'); Pn = tabs.exit_notification(exP, P)
     exW, fnW, SW = loop_summary(M, 'process_messages', [ctx_value(M, 'ShmWriter'), Opaque('updater')])
@@ -861,6 +936,31 @@ def run_check(tier, seed):
     blocking_ok = all(b[0] in ('recv', 'recv_timeout') for b in P['blocking'] + W['blocking'])
     ok_pieces &= fact('workers block only in mailbox receives (which a message wakes); the poller\'s receive time-out is %s ns' % sleep_ns, blocking_ok and sleep_ns is not None and sleep_ns <= 2 * NS)
     ck.absorb(pr)
+    # ---- time a worker step can be held up besides its (interruptible) mailbox receive and the chronyd query
+    BUDGET_NS = 2 * NS
+    try:
+        bb, mono, bv = blocking_budget(M, stats)
+        prb = Prover(seed)
+
+        def confirm_sleep(m):
+            # a long outage of chronyd, then the writer dies while the poller sits in its delay: does the daemon still exit promptly?
+            nat = native_fault(rp, 'writer', 'loop', 6, True, DEADLINE_MS)
+            native_budget.append(nat)
+            if nat['hung']:
+                ck.violation('daemon-lingers', 'chronyd silent since the daemon started, the writer thread panics at its 6th message: the real thread_manager::run had not returned %d ms later (the poller thread can sit in a delay that no message interrupts: the code allows more than %d s per poll)'
+                             % (DEADLINE_MS, BUDGET_NS // NS), {'cmd': nat['cmd'], 'native': nat['out']})
+                return 'sleep'
+            return None
+        native_budget = []
+        tot_holder = [None]
+        for name, pc, total, exb in bb:
+            prb.add(exb.side)
+            tot_holder[0] = total
+            prb.prove_cegar('ClockErrorBoundPoller::%s: besides the chronyd query the thread is never held up for more than %d s (any outage length)' % (name, BUDGET_NS // NS), z3.And(pc, *mono), total <= BUDGET_NS,
+                            confirm_sleep, lambda m: [], need_reach=False)
+        ck.absorb(prb, 'blocking: ')
+    except EngineError as e:
+        ck.inconclusive.append('blocking budget of the poller: %s' % e)
     # ---- composition
     R = 3 if tier == 'quick' else 6
     K = R + 3 if tier == 'quick' else R + 5
@@ -884,8 +984,11 @@ def run_check(tier, seed):
             if (where, nth) in tried:
                 continue
             tried.append((where, nth))
-            nat = native_fault(rp, who, where, nth, panic, DEADLINE_MS)
-            native_runs.append(nat)
+            for attempt in range(4):        # the channel map iterates in a random order and the notification races with the drop of the mailbox
+                nat = native_fault(rp, who, where, nth, panic, DEADLINE_MS)
+                native_runs.append(nat)
+                if nat['hung']:
+                    break
             if nat['hung']:
                 ck.violation('daemon-lingers', 'the %s thread %s (%s, visit %d): the real thread_manager::run had not returned %d ms later - the daemon lingers with part of its pipeline dead; failing pieces: %s'
                              % (who, 'panics' if panic else 'returns', 'at start-up' if where == 'start' else 'at the top of its loop', nth, DEADLINE_MS, '; '.join(diag[:3]) or 'none'),
@@ -925,3 +1028,137 @@ def run_check(tier, seed):
     ck.cov['rule'] = 'one obligation per piece (solver-decided table entries) and one composition query; violations only from native runs of the real thread_manager::run'
     ck.assumptions += ['std::sync::mpsc FIFO semantics', 'fair scheduling', 'panic = unwind']
     return ck.finish()
+
+
+# --------------------------------------------------------------------------------------------- C19: the rate's way through the threads
+def drift_chain(prog):
+    """thread_manager::run(max_drift_ppb, ..) -> closure capture -> shm_writer::run(ctx, rate) -> ShmUpdater::new(writer, rate):
+    the value handed on at every link, as a z3 term over run()'s parameter.  returns (param, [(link name, term or None)])"""
+    M = Models(prog)
+    M.run_main()
+    param = z3.Int('max_drift_ppb')
+    links = []
+    names = prog.struct_fields.get('Context') or []
+    sp = [e for e in M.main_prefix if e.kind == 'spawn']
+    wclo = None
+    for e in sp:
+        clo = e.ret
+        ctx = next((x for x in (clo.f if isinstance(clo, Struct) else []) if isinstance(x, Struct) and len(x.f) == len(names)), None)
+        if ctx is not None and z3.is_int_value(z3.simplify(ctx.f[names.index('channel_id')].disc())) and z3.simplify(ctx.f[names.index('channel_id')].disc()).as_long() == M.chan['ShmWriter']:
+            wclo = (e.args[0], clo)
+    if wclo is None:
+        return param, [('thread_manager::run spawns the writer thread with a closure owning the writer Context', None)]
+    loc, clo = wclo
+    caught = {}
+
+    def grab(name):
+        def h(ex, st, callee, args, fn):
+            caught[name] = list(args)
+            return UNIT if name != 'updater_new' else Opaque('updater')
+        return h
+    # the closure body
+    cf = [f for lst in prog.fns.values() for f in lst if '{closure#' in f.name and f.kind == 'fn' and f.params and loc in f.ltypes.get(f.params[0], '')]
+    if len(cf) != 1:
+        return param, [('writer thread closure body found', None)]
+    ex = Exec(prog, env=[(r'(^|::)shm_writer::run$', grab('writer_run'))])
+    ex.run(cf[0], [clo], State())
+    a = caught.get('writer_run')
+    v1 = a[1] if a and len(a) > 1 and isinstance(a[1], z3.ExprRef) else None
+    links.append(('the writer thread\'s closure passes the captured rate to shm_writer::run', v1))
+    # shm_writer::run
+    rate = z3.Int('rate_in')
+
+    def h_new(ex_, st, callee, args, fn):
+        return Enum(0, {'Ok': Struct([Opaque('writer')])})
+    ex2 = Exec(prog, env=[(r'(^|::)ShmWriter::new$', h_new), (r'ShmUpdater(::<.*>)?::new$', grab('updater_new')), (r'(^|::)process_messages(::<.*>)?$', grab('loop'))],
+               opaque_calls=[r'Arguments(::<.*>)?::from_str$', r'Arguments(::<.*>)?::new', r'Argument(::<.*>)?::new_debug', r'Path::new'])
+    ex2.run(prog.find1('shm_writer::run', crate='clock_bound_d'), [ctx_value(M, 'ShmWriter'), rate], State())
+    b = caught.get('updater_new')
+    v2 = b[1] if b and len(b) > 1 and isinstance(b[1], z3.ExprRef) else None
+    links.append(('shm_writer::run passes its rate to ShmUpdater::new', z3.substitute(v2, (rate, param)) if v2 is not None else None))
+    return param, links
+
+
+# --------------------------------------------------------------------------------------------- how long a worker step can block
+def blocking_budget(M, stats):
+    """the real ClockErrorBoundPoller::{get_tracking, is_within_grace_period}: every way the thread can be held up inside them besides
+    the chronyd query itself (whose time-out is the environment's).  returns list of (description, pcond, total sleep term, vars)"""
+    prog = M.prog
+    L = z3.Int('last_answer_ns'); now = [z3.Int('now_%d' % i) for i in range(6)]
+    reply_ok = z3.Bool('uds_reply_ok'); body = z3.Int('reply_body_kind')
+    rb = prog.enums.get('ReplyBody')
+
+    def ev(st, kind, args=(), ret=None):
+        st.trace = st.trace + (Event(kind, args, ret),)
+
+    def tnow(st):
+        i = len([e for e in st.trace if e.kind == 'Instant::now'])
+        if i >= len(now):
+            raise EngineError('too many clock reads in one poller call')
+        ev(st, 'Instant::now', (), now[i])
+        return now[i]
+
+    def d(ex, st, v):
+        v = val(ex, st, v)
+        return v.f[0] if isinstance(v, Struct) else v
+
+    def h_now(ex, st, callee, args, fn):
+        return Struct([tnow(st)])
+
+    def h_elapsed(ex, st, callee, args, fn):
+        r = tnow(st) - d(ex, st, args[0])
+        return Struct([z3.If(r >= 0, r, z3.IntVal(0))])
+
+    def h_sleep(ex, st, callee, args, fn):
+        ev(st, 'sleep', (d(ex, st, args[0]),))
+        return UNIT
+
+    def h_dur(ex, st, callee, args, fn):
+        k = strip_tail(callee)
+        a = d(ex, st, args[0])
+        if k in ('from_secs',):
+            return Struct([args[0] * NS])
+        if k == 'from_millis':
+            return Struct([args[0] * 10 ** 6])
+        b = d(ex, st, args[1]) if len(args) > 1 else None
+        if k == 'saturating_sub':
+            return Struct([z3.If(a >= b, a - b, z3.IntVal(0))])
+        if k == 'saturating_add':
+            return Struct([a + b])
+        if k == 'min':
+            return Struct([z3.If(a <= b, a, b)])
+        if k == 'max':
+            return Struct([z3.If(a >= b, a, b)])
+        if k in ('lt', 'le', 'gt', 'ge'):
+            return {'lt': a < b, 'le': a <= b, 'gt': a > b, 'ge': a >= b}[k]
+        if k in ('mul', 'saturating_mul') or k == 'checked_mul':
+            raise EngineError('Duration multiplication')
+        raise EngineError('Duration::' + k)
+
+    def strip_tail(c):
+        return c.rsplit('::', 1)[1]
+
+    def h_query(ex, st, callee, args, fn):
+        ev(st, 'blocking_query_uds')
+        pl = {k: Struct([Opaque('body.' + k)]) for k in (rb or {})}
+        pl['Tracking'] = Struct([Struct([z3.Int('wire_ref_id')] + [Opaque('t%d' % i) for i in range(1, 14)])])
+        rep = Struct([Opaque('r0'), Opaque('r1'), Opaque('r2'), Enum(body, pl)])
+        return Enum(z3.If(reply_ok, z3.IntVal(0), z3.IntVal(1)), {'Ok': Struct([rep]), 'Err': Struct([Opaque('io::Error')])})
+    env = [(r'(^|::)Instant::now$', h_now), (r'(^|::)Instant::elapsed$', h_elapsed), (r'(^|::)thread::sleep$|^sleep$|(^|::)sleep$', h_sleep),
+           (r'(^|::)Duration::(from_secs|from_millis|saturating_sub|saturating_add)$', h_dur), (r'^<Duration as (Ord|PartialOrd)>::(min|max|lt|le|gt|ge)$', h_dur),
+           (r'(^|::)blocking_query_uds$', h_query)]
+    res = []
+    for name in ('get_tracking', 'is_within_grace_period'):
+        ex = Exec(prog, env=env, opaque_calls=[r'^<ClientOptions as Default>::default$', r'Arguments(::<.*>)?::from_str$', r'Arguments(::<.*>)?::new', r'Argument(::<.*>)?::new_debug'])
+        ex.const_hooks = time_consts()
+        f = prog.find1(name, self_ty='ClockErrorBoundPoller')
+        st = State(); st.mem[(0, 'p')] = Struct([Struct([L])])
+        outs = ex.run(f, [Ref(0, 'p')], st)
+        for o in outs:
+            if o.kind != 'return':
+                continue
+            sl = [e.args[0] for e in o.state.trace if e.kind == 'sleep']
+            total = sum(sl[1:], sl[0]) if sl else z3.IntVal(0)
+            res.append((name, o.state.pcond(), total, ex))
+    mono = [L >= 0, now[0] >= L] + [now[i + 1] >= now[i] for i in range(len(now) - 1)] + [now[-1] < 2 ** 62]
+    return res, mono, dict(L=L, now=now)
